@@ -686,5 +686,6 @@ func genC18(c *Ctx) {
 	c.Summary["analyze_call_sites"] = len(analyzeCalls)
 	c.Summary["receiver_writes"] = len(recvWrites)
 	genC18S(c) // second output file: the translated stemmers (c18s.go)
+	genC18I(c) // third output file: tables and shape facts of the Indic normaliser (c18in.go)
 	c.Summary["stateless_entry_points"] = nEntries
 }
